@@ -382,6 +382,97 @@ func c17concurrent(kind, dir string, bound int) *explore.Scenario {
 	return sc
 }
 
+// c17bothDirections: a read and a write run on the same wrapped connection at the same time and BOTH
+// contexts are cancelled (in either order): each direction's cancellation must not
+// disturb the other one - both return promptly, no deadline is left, written bytes are conserved.
+func c17bothDirections(kind string, bound int) *explore.Scenario {
+	name := fmt.Sprintf("%s read and write concurrently, both cancelled", kind)
+	packet := kind == "netctx.PacketConn"
+	sc := &explore.Scenario{Name: name, Bound: bound}
+	sc.Cfg.Horizon = 10 * time.Second
+	sc.Make = func() (func(), func(*zzvsched.Exec) (string, *explore.Violation)) {
+		var a *fakeConn
+		var nr, nw int
+		var er, ew error
+		rdone, wdone := false, false
+		c1, c2 := false, false
+		body := func() {
+			var b *fakeConn
+			capa := 4
+			if packet {
+				capa = 1
+			}
+			a, b = newFakePair(packet, capa)
+			w := wrapCtx(kind, a)
+			ctxR, cancelR := zzvsched.WithCancel()
+			ctxW, cancelW := zzvsched.WithCancel()
+			zzvsched.GoNamed("reader", func() {
+				nr, er = w.read(ctxR, make([]byte, 8))
+				rdone = true
+			})
+			zzvsched.GoNamed("writer", func() {
+				// two writes: the second finds the queue/pipe full unless the peer reads
+				n1, e1 := w.write(ctxW, []byte("abcd"))
+				nw, ew = n1, e1
+				if e1 == nil {
+					n2, e2 := w.write(ctxW, []byte("efgh"))
+					nw, ew = n1+n2, e2
+				}
+				wdone = true
+			})
+			_ = b
+			zzvsched.GoNamed("canceller", func() {
+				if zzvsched.Choose(2) == 0 {
+					cancelR()
+					c1 = true
+					cancelW()
+					c2 = true
+				} else {
+					cancelW()
+					c2 = true
+					cancelR()
+					c1 = true
+				}
+			})
+		}
+		check := func(ex *zzvsched.Exec) (string, *explore.Violation) {
+			flat := string(a.out.bytes) // what the writes put into the pipe towards the (silent) peer
+			for _, m := range a.out.msgs {
+				flat += string(m)
+			}
+			out := fmt.Sprintf("read=(%d,%v) write=(%d,%v) peer=%q", nr, errShort(er), nw, errShort(ew), flat)
+			pre := name + ": "
+			if len(ex.Panics) > 0 {
+				return out, &explore.Violation{Sig: "C17 panic", Msg: pre + "panic: " + ex.Panics[0].Value + "\n" + ex.Panics[0].Stack}
+			}
+			if ex.HorizonHit {
+				return out + " HORIZON", nil
+			}
+			if c1 && !rdone {
+				return out, &explore.Violation{Sig: "C17 cancelled-op-still-blocked " + kind, Msg: pre + fmt.Sprintf("the read's context was cancelled but the read never returned: %v", ex.Parked)}
+			}
+			if c2 && !wdone {
+				return out, &explore.Violation{Sig: "C17 cancelled-op-still-blocked " + kind, Msg: pre + fmt.Sprintf("the write's context was cancelled but the write never returned: %v", ex.Parked)}
+			}
+			if rdone && !(nr == 0 && isCtxErr(er)) {
+				return out, &explore.Violation{Sig: "C17 silent-read-result " + kind, Msg: pre + fmt.Sprintf("nothing was ever sent to the reader, its context was cancelled, yet the read returned (%d, %v)", nr, er)}
+			}
+			if wdone && ew != nil && !isCtxErr(ew) {
+				return out, &explore.Violation{Sig: "C17 write-error " + kind, Msg: pre + fmt.Sprintf("the write failed with %v, which is neither success nor the context's error", ew)}
+			}
+			if wdone && flat != "abcdefgh"[:nw] {
+				return out, &explore.Violation{Sig: "C17 bytes-not-conserved " + kind, Msg: pre + fmt.Sprintf("the writes reported %d bytes but the peer received %q", nw, flat)}
+			}
+			if len(a.SetRD) > 0 && !a.rdl.IsZero() || len(a.SetWD) > 0 && !a.wdl.IsZero() {
+				return out, &explore.Violation{Sig: "C17 leftover-deadline " + kind, Msg: pre + fmt.Sprintf("at quiescence the wrapped connection still carries a deadline (read %v, write %v)", a.rdl, a.wdl)}
+			}
+			return out, nil
+		}
+		return body, check
+	}
+	return sc
+}
+
 func isCtxErr(err error) bool {
 	return errors.Is(err, context.Canceled) || errors.Is(err, context.DeadlineExceeded)
 }
@@ -399,7 +490,7 @@ func errShort(err error) string {
 }
 
 func init() {
-	register(&Check{ID: "C17",
+	register(&Check{ID: "C17", YieldOnRelease: true,
 		Scenarios: func(tier string) []*explore.Scenario {
 			var out []*explore.Scenario
 			b := 3
@@ -421,10 +512,13 @@ func init() {
 						cb = 3
 					}
 					out = append(out, c17concurrent(k, d, cb))
+					if d == "read" {
+						out = append(out, c17bothDirections(k, cb))
+					}
 				}
 			}
 			return out
 		},
-		Rule:        "for netctx.Conn, netctx.PacketConn and connctx over a scheduler-visible pipe (4-byte stream buffer with partial writes / 1-datagram queue): one context-controlled read or write whose context is cancelled by a separate thread at every possible point (before, during, after), a peer thread, then a probe operation with a live context; also two threads operating on the same wrapped connection concurrently, one context cancelled and one live; every interleaving within the deviation bound (thorough: unbounded, the whole interleaving space is closed by the state cache)",
+		Rule:        "for netctx.Conn, netctx.PacketConn and connctx over a scheduler-visible pipe (4-byte stream buffer with partial writes / 1-datagram queue): one context-controlled read or write whose context is cancelled by a separate thread at every possible point (before, during, after), a peer thread, then a probe operation with a live context; also two threads operating on the same wrapped connection concurrently, one context cancelled and one live; a read and a write on the same wrapped connection concurrently with both contexts cancelled by separate threads; every interleaving within the deviation bound (thorough: unbounded, the whole interleaving space is closed by the state cache)",
 		Assumptions: []string{"the wrapped connection is the harness's fake with exact deadline semantics (a passed deadline fails the blocked and every later operation until reset)"}})
 }
